@@ -123,6 +123,9 @@ fn render(class: &str, tape: &[u8]) -> String {
             None => "repository file: bad index".into(),
         };
     }
+    if class == "text" {
+        return format!("raw source text:\n{}", crate::c17::raw_input(&String::from_utf8_lossy(tape)).render());
+    }
     let mut t = Tape::new(tape);
     let g = generate(&mut t, None, false);
     format!("noise={} style={:?}\n{}", g.noise, g.style, g.input.render())
@@ -170,6 +173,11 @@ fn case(class: &str, tape: &[u8], _strict: bool) -> Outcome {
             Some((_, i)) => (i, true),
             None => return Outcome::fail("harness:bad-repo-index", "tape does not name a repository file"),
         }
+    } else if class == "text" {
+        // raw source text (libFuzzer target format_text, hand-written replays): the tape is the
+        // main schema's source, `=== schema <name> ===` lines start further resolvable schemas
+        classes.push("raw-text");
+        (crate::c17::raw_input(&String::from_utf8_lossy(tape)), false)
     } else {
         let mut t = Tape::new(tape);
         let g = generate(&mut t, None, false);
